@@ -385,40 +385,7 @@ def run(ck):
                                                          cut_blocks=[c.bb for c in calls])
         ck.decide(ok, "CUT/wrapper-reset", path.replace(Z, "") + ":core", "core reset called on every path",
                   "wrapper reset can return without calling the core reset", where(f))
-    # ---------------- (5b) buffer clones copy the whole buffer -------------------------------------
-    # A buffer type's clone_to hands the copy a buffer of the same capacity; every byte of it is observable unless a
-    # liveness argument says otherwise (SymBuf::push_lit stores one byte and advances the cursor by three: it
-    # relies on the bytes beyond `filled` being zero, so a clone that copies only the filled part diverges).
-    # Rule: the element count of the raw copy is the same expression as the length of the slice the clone is
-    # built from, and the copy starts at the buffer's first byte.
-    clones = [f for f in P.fns.values() if f.path.startswith(Z) and f.path.endswith("::clone_to")]
-    ck.floor("COPY/whole-buffer:clone_to fns", len(clones), 3)
-    for f in clones:
-        ck.use_fn(f)
-        name = f.path.replace(Z, "")
-        cps = f.live_calls(r"copy_from_nonoverlapping$|copy_nonoverlapping$|copy_to_nonoverlapping$")
-        mk = f.live_calls(r"WeakSliceMut::from_raw_parts_mut$|slice::from_raw_parts_mut$")
-        if not (ck.anchor("raw copy in " + name, len(cps) == 1) and ck.anchor("slice construction in " + name, len(mk) == 1)):
-            continue
-        cargs, margs = f.call_args(cps[0]), f.call_args(mk[0])
-        count, newlen = cargs[-1], margs[-1]
-        src = cargs[0] if cps[0].callee.endswith("::copy_nonoverlapping") and "mut_ptr" not in cps[0].callee \
-            and "const_ptr" not in cps[0].callee else cargs[1]
-        if "copy_to_nonoverlapping" in cps[0].callee:
-            src = cargs[0]
-        same = mir.fmt(mir.strip_casts(count)) == mir.fmt(mir.strip_casts(newlen))
-        src_ok = bool(mir.calls_in(src, r"as_ptr$|as_mut_ptr$")) and not any(x[0] == "call" and isinstance(x[1], str)
-                      and re.search(r"::(add|offset|wrapping_add|sub)$", x[1]) for x in mir.walk(src))
-        partial = [g.path.replace(Z, "") for g in P.fns.values()
-                   if g.path.startswith(f.path.rsplit("::", 1)[0] + "::") and _advance_exceeds_store(g)]
-        ck.decide(same and src_ok, "COPY/whole-buffer", name,
-                  "copies %s elements from the start of the source buffer = length of the new buffer%s"
-                  % (mir.fmt(count), (" (tail observable: %s)" % ",".join(partial)) if partial else ""),
-                  "the clone copies %s elements (source %s) but the new buffer has %s: bytes of the copy's buffer are "
-                  "left as the allocator returned them%s" % (mir.fmt(count), mir.fmt(src), mir.fmt(newlen),
-                  ("; %s stores fewer bytes than it advances the cursor, so those bytes are read later" % ",".join(partial))
-                  if partial else ""), where(f, cps[0].line))
-
+    whole_buffer_clones(ck, P)
     # ---------------- (6) no bitwise duplication through the type system ---------------------------
     owners = [Z + "deflate::State", Z + "inflate::State", Z + "deflate::DeflateStream", Z + "inflate::InflateStream",
               Z + "stable::Deflate", Z + "stable::Inflate", Z + "deflate::pending::Pending", Z + "deflate::sym_buf::SymBuf",
@@ -479,6 +446,43 @@ def copy_identity(ck, P):
             ck.floor("FIELD/copy-identity:same", n_same, 30)
             ck.sample("deflate::copy aggregate: %d fields, %d identical to source" % (len(all_fields), n_same))
             _check_copy_repointed(ck, P, cp, fields)
+
+
+def whole_buffer_clones(ck, P):
+    """buffer clones copy the whole buffer (what the allocator left in the rest is observable)"""
+    # ---------------- (5b) buffer clones copy the whole buffer -------------------------------------
+    # A buffer type's clone_to hands the copy a buffer of the same capacity; every byte of it is observable unless a
+    # liveness argument says otherwise (SymBuf::push_lit stores one byte and advances the cursor by three: it
+    # relies on the bytes beyond `filled` being zero, so a clone that copies only the filled part diverges).
+    # Rule: the element count of the raw copy is the same expression as the length of the slice the clone is
+    # built from, and the copy starts at the buffer's first byte.
+    clones = [f for f in P.fns.values() if f.path.startswith(Z) and f.path.endswith("::clone_to")]
+    ck.floor("COPY/whole-buffer:clone_to fns", len(clones), 3)
+    for f in clones:
+        ck.use_fn(f)
+        name = f.path.replace(Z, "")
+        cps = f.live_calls(r"copy_from_nonoverlapping$|copy_nonoverlapping$|copy_to_nonoverlapping$")
+        mk = f.live_calls(r"WeakSliceMut::from_raw_parts_mut$|slice::from_raw_parts_mut$")
+        if not (ck.anchor("raw copy in " + name, len(cps) == 1) and ck.anchor("slice construction in " + name, len(mk) == 1)):
+            continue
+        cargs, margs = f.call_args(cps[0]), f.call_args(mk[0])
+        count, newlen = cargs[-1], margs[-1]
+        src = cargs[0] if cps[0].callee.endswith("::copy_nonoverlapping") and "mut_ptr" not in cps[0].callee \
+            and "const_ptr" not in cps[0].callee else cargs[1]
+        if "copy_to_nonoverlapping" in cps[0].callee:
+            src = cargs[0]
+        same = mir.fmt(mir.strip_casts(count)) == mir.fmt(mir.strip_casts(newlen))
+        src_ok = bool(mir.calls_in(src, r"as_ptr$|as_mut_ptr$")) and not any(x[0] == "call" and isinstance(x[1], str)
+                      and re.search(r"::(add|offset|wrapping_add|sub)$", x[1]) for x in mir.walk(src))
+        partial = [g.path.replace(Z, "") for g in P.fns.values()
+                   if g.path.startswith(f.path.rsplit("::", 1)[0] + "::") and _advance_exceeds_store(g)]
+        ck.decide(same and src_ok, "COPY/whole-buffer", name,
+                  "copies %s elements from the start of the source buffer = length of the new buffer%s"
+                  % (mir.fmt(count), (" (tail observable: %s)" % ",".join(partial)) if partial else ""),
+                  "the clone copies %s elements (source %s) but the new buffer has %s: bytes of the copy's buffer are "
+                  "left as the allocator returned them%s" % (mir.fmt(count), mir.fmt(src), mir.fmt(newlen),
+                  ("; %s stores fewer bytes than it advances the cursor, so those bytes are read later" % ",".join(partial))
+                  if partial else ""), where(f, cps[0].line))
 
 
 def _source_field(e):
